@@ -5,6 +5,7 @@ import (
 	"runtime/debug"
 	"sync/atomic"
 	"testing"
+	"time"
 
 	"github.com/NethermindEth/juno/verifh/lib"
 )
@@ -65,10 +66,7 @@ func runCase(r *lib.Run, idx int, maxRound, maxSweeps *atomic.Int64) {
 		case 3:
 			hit = tplSplitAtQuorumEdge(s, ha)
 		}
-		if len(s.nodes) > 0 && s.steps == 0 && !s.violated {
-			// template gave up before starting the machines
-			s.start()
-		}
+		s.start() // no-op unless the template gave up before starting the machines
 		prof.budget /= 2
 	}
 	s.runRandom(prof)
@@ -182,19 +180,21 @@ func runCase(r *lib.Run, idx int, maxRound, maxSweeps *atomic.Int64) {
 				}
 			}
 		}
-		// Second exemption: Juno evaluates line 49 (and 55) only for the current
-		// round and the round of the message just received. A validator whose
-		// buffer already held the deciding proposal + precommit quorum of round rc
-		// before it entered the height, and which then never visits round rc
-		// (f+1 skip past it), never evaluates line 49 for rc although the paper's
-		// rule is enabled over its message log. It recovers only through the sync
-		// path (not driven here). Counted, not judged.
+		// Second exemption: Juno evaluates line 49 only for the current round (on
+		// start/timeouts) or for the round of the message just accepted. If the
+		// quorum for round rc completes in another way - by the validator's own
+		// precommit sent while it processes a message of a different round, or
+		// from messages buffered before the height started - and no further
+		// round-rc message arrives, line 49 is never evaluated for rc although the
+		// paper's rule is enabled over the validator's message log. Such a
+		// validator recovers only through the sync path (not driven here).
+		// Counted, not judged: termination is not part of the property.
 		unevaluated := 0
 		for _, i := range c.correct {
 			nd := s.nodes[i]
 			if v, ok := s.decided[nd.h]; ok && !nd.done {
-				rc := s.decRound[nd.h]
-				if rl := s.hl(nd, nd.h).rl(rc); rl != nil && rl.commitEnabledWhileBuffered && len(rl.props) > 0 && rl.props[0].val == v && nd.round != rc {
+				if rl := s.hl(nd, nd.h).rl(s.decRound[nd.h]); rl != nil && len(rl.props) > 0 && rl.props[0].val == v &&
+					c.isQuorum(nd.h, c.maskPower(nd.h, voteMask(rl.pc, v))) {
 					unevaluated++
 				}
 			}
@@ -203,7 +203,7 @@ func runCase(r *lib.Run, idx int, maxRound, maxSweeps *atomic.Int64) {
 			r.Count("progress_not_applicable(validator holds losing first proposal of decision round)", 1)
 			r.Count("validators_wedged_on_losing_first_proposal", wedged)
 		} else if unevaluated > 0 {
-			r.Count("progress_not_applicable(decision enabled from buffered messages in a round never visited)", 1)
+			r.Count("progress_not_applicable(validator holds proposal+precommit quorum of the decision round, line 49 not re-evaluated)", 1)
 		} else {
 			var where []string
 			var stuck *node
@@ -232,9 +232,26 @@ func runCase(r *lib.Run, idx int, maxRound, maxSweeps *atomic.Int64) {
 func TestC12(t *testing.T) {
 	debug.SetGCPercent(400) // many small short-lived allocations per schedule; heap stays tiny
 	r := lib.Start("C12", "exploration")
-	n := r.N(200000, 6000000)
+	n := r.N(150000, 6000000)
 	var maxRound, maxSweeps atomic.Int64
-	r.Cases(n, 0, func(idx int) { runCase(r, idx, &maxRound, &maxSweeps) })
+	r.Cases(n, 0, func(idx int) {
+		// Watchdog (never a verdict): a state machine that does not return (e.g.
+		// an upon-rule that stays enabled forever) must not hang the check. A
+		// schedule normally takes ~1 ms; 120 s is > 1000x even on a loaded host.
+		done := make(chan any, 1)
+		go func() {
+			defer func() { done <- recover() }()
+			runCase(r, idx, &maxRound, &maxSweeps)
+		}()
+		select {
+		case p := <-done:
+			if p != nil {
+				panic(p) // re-raised in the worker: lib.Cases records it as class "panic"
+			}
+		case <-time.After(120 * time.Second):
+			r.Inconclusive("watchdog: a Process* call did not return within 120s")
+		}
+	})
 	r.Count("max_round_reached", int(maxRound.Load()))
 	r.Count("max_suffix_sweeps_needed", int(maxSweeps.Load()))
 	r.Assume("messages are authenticated: a byzantine validator cannot send under a correct validator's address (signatures are checked below the state machine)")
@@ -247,5 +264,5 @@ func TestC12(t *testing.T) {
 		"different content to different peers, quorum-completing votes for a single target) or by one of three attack templates followed by the adversary; then a "+
 		"synchronous suffix. Online oracles over every action returned by Process*: agreement, validity (proposer, Valid, delivered), no equivocation, lock rule "+
 		"against the messages the harness itself delivered, thresholds 3P>=2N / 3P>=N over distinct delivered senders, bounded progress (<= 800 sweeps) after the "+
-		"suffix, except for validators that hold the losing first proposal of an equivocating proposer for the decision round or whose decision was enabled purely from messages buffered before the height started in a round they never visit. distinct = distinct schedule hashes", 1000)
+		"suffix, except for validators that hold the losing first proposal of an equivocating proposer for the decision round or that already hold proposal + precommit quorum of the decision round (Juno re-evaluates line 49 only for the current / just-received round). distinct = distinct schedule hashes", 1000)
 }
